@@ -7,7 +7,7 @@ cd /verif
 IDS="$@"; [ -z "$IDS" ] && IDS=$(ls seeded)
 for id in $IDS; do
   d=seeded/$id; [ -f $d/patch.diff ] || continue
-  checks=$(python3 -c "import json;print(' '.join(json.load(open('$d/meta.json'))['caught_by']))" 2>/dev/null || echo $id)
+  checks=$(python3 -c "import json;m=json.load(open('$d/meta.json'));print(' '.join(m['caught_by'] or [m['breaks_property']]))" 2>/dev/null || echo $id)
   git -C /repo apply /verif/$d/patch.diff || { echo "$id: patch does not apply" | tee $d/check_result.txt; continue; }
   : > $d/check_result.txt
   for c in $checks; do
